@@ -77,6 +77,16 @@ RDFLEX = {
     "HTML": ["<b>a</b>", "a", "<b>"],
 }
 
+# clusters of one datatype: naive and aware values, several offsets, one instant spelled differently
+CLUSTERS = {
+    "time": ["12:00:00+05:00", "08:00:00Z", "10:00:00", "07:00:00Z", "09:00:00+01:00", "08:00:00", "08:00:00+00:00",
+             "23:30:00-02:00", "00:30:00", "10:00:00.5"],
+    "dateTime": ["2006-01-01T12:00:00+05:00", "2006-01-01T08:00:00Z", "2006-01-01T10:00:00", "2006-01-01T07:00:00Z",
+                 "2006-01-01T09:00:00+01:00", "2006-01-01T08:00:00", "2006-01-01T08:00:00+00:00",
+                 "2005-12-31T23:30:00-02:00", "2006-01-01T00:30:00", "2006-01-02T00:00:00Z"],
+    "date": ["2006-01-01", "2006-01-01Z", "2006-01-02", "2006-01-01+05:00", "2006-01-01-05:00", "2005-12-31", "2006-01-02Z"],
+}
+
 NONLIT_STRINGS = ["", "a", "b", "b1", "http://e/a", "http://e/b", "http://e/aé", "http://e/\U0001f600", "A",
                   "aa", "?x", "x", XSDP + "integer", XSDP + "string", "urn:x", "a b", "a<b", "é"]
 
@@ -97,7 +107,7 @@ def empty_lang_literal(lex):
     return lit
 
 
-def build_pool(rng, size=220):
+def build_pool(rng, size=250):
     """a fresh pool of terms (list, structurally distinct)"""
     out = []
     seen = set()
@@ -124,6 +134,10 @@ def build_pool(rng, size=220):
               empty_lang_literal("a"), empty_lang_literal("b"),
               Literal("\\x41"), Literal("\n\\\""), Literal("a\n\""), Literal("\"\"\"\n"), Literal("a\\"), Literal("\\u00e9")]:
         add(t)
+    for local, forms in CLUSTERS.items():
+        for f in forms:
+            add(Literal(f, datatype=URIRef(XSDP + local)))
+    core = len(out)
     strs = list(NONLIT_STRINGS)
     rng.shuffle(strs)
     for s in strs[:12]:
@@ -163,9 +177,10 @@ def build_pool(rng, size=220):
             add(Literal(f, datatype=k))
             if rng.random() < 0.5:
                 add(Literal(f, datatype=k, normalize=False))
-    rng.shuffle(out)
-    # keep the fixed core and trim the rest
-    return out[:size] if len(out) > size else out
+    rest = out[core:]
+    rng.shuffle(rest)
+    # keep the fixed core and the clusters, trim the rest
+    return out[:core] + rest[: max(0, size - core)]
 
 
 # ------------------------------------------------------------------ terms as JSON / Coq
@@ -226,6 +241,14 @@ def term_strings(j):
 RANK = {"B": 0, "V": 1, "I": 2, "L": 3}
 
 
+def ill_typed(j):
+    """oracle for the trigger of F7k only: rdflib holds this literal to be ill-typed (or has no value for a recognised datatype)"""
+    if j[0] != "L" or j[2] is None:
+        return False
+    t = mk(j)
+    return bool(t.ill_typed is True or (t.value is None and t.datatype in XSDToPython))
+
+
 def structural_key(j):
     """the identity RDF gives a term (used only by the conformance flag)"""
     if j[0] == "L":
@@ -262,7 +285,7 @@ class Laws(Suite):
     case_ty = "case"
     obs_ty = "obs"
     kf = "kf"
-    kf_ids = {3: "F7c"}
+    kf_ids = {3: "F7c", 8: "F7i", 9: "F7j", 10: "F7k"}
     corr = "Identifier.__eq__/__hash__/__lt__/__gt__, Literal.__eq__/__hash__/__lt__/__gt__/eq, _ORDERING"
     quick_n = 700
     thorough_n = 12000
@@ -278,10 +301,24 @@ class Laws(Suite):
             for s in term_strings(j):
                 if s not in strings:
                     strings.append(s)
-        return {"terms": terms, "hash": [[s, hash(s)] for s in strings]}
+        return {"terms": terms, "hash": [[s, hash(s)] for s in strings], "ill": [ill_typed(j) for j in terms]}
 
     def gen(self, rng, i):
         pool = self.pools.get(rng)
+        if rng.random() < 0.3:
+            # a cluster: 3-5 literals of one datatype family (half of the time a date/time family)
+            fams = {}
+            for p in pool:
+                if p[0] == "L":
+                    fams.setdefault(p[2], []).append(p)
+            big = [d for d, l in fams.items() if len(l) >= 3]
+            dtm = [d for d in big if d in (XSDP + "time", XSDP + "dateTime", XSDP + "date")]
+            d = rng.choice(dtm) if dtm and rng.random() < 0.5 else rng.choice(big)
+            terms = rng.sample(fams[d], min(len(fams[d]), rng.choice([3, 3, 4, 5])))
+            if rng.random() < 0.3:
+                terms.append(rng.choice(pool))
+            terms = [t for i, t in enumerate(terms) if t not in terms[:i]]
+            return self.make_case(terms)
         k = rng.choice([2, 3, 3, 4, 5, 6])
         terms = []
         while len(terms) < k:
@@ -335,6 +372,29 @@ class Laws(Suite):
                 why.append("sorted: the non-literal prefix is not the expected order")
             if any(js[i][0] != "L" for i in res[len(nonlit):]):
                 why.append("sorted: a non-literal after a literal")
+        # literals of one datatype: every permutation sorts to the same sequence (up to ties of the observed <)
+        fams = {}
+        for i in range(n):
+            if js[i][0] == "L" and js[i][3] != "":
+                fams.setdefault(js[i][2], []).append(i)
+        for d, members in fams.items():
+            if len(members) < 2:
+                continue
+            import itertools
+            perms = list(itertools.permutations(members)) if len(members) <= 4 else \
+                [rs.sample(members, len(members)) for _ in range(24)]
+            first = None
+            for p in perms:
+                try:
+                    res = sorted(p, key=lambda i: _K(ts[i]))
+                except Exception as e:  # noqa: BLE001
+                    why.append("sorted (one datatype) raised " + type(e).__name__)
+                    break
+                if first is None:
+                    first = res
+                elif any(L[x][y] == "lt" or L[y][x] == "lt" for x, y in zip(first, res) if x != y):
+                    why.append("sorted: literals of one datatype come out in different orders for different input orders")
+                    break
         classes = {structural_key(j) for j in js}
         try:
             if len(set(ts)) != len(classes) or len({t: 1 for t in ts}) != len(classes):
@@ -359,7 +419,8 @@ class Laws(Suite):
 
     def coq_case(self, case):
         return ("{| c_terms := " + clist(cterm(j) for j in case["terms"]) + "; c_hash := "
-                + clist(ctuple(cstr(s), cZ(h)) for s, h in case["hash"]) + " |}")
+                + clist(ctuple(cstr(s), cZ(h)) for s, h in case["hash"])
+                + "; c_ill := " + clist(cbool(b) for b in case.get("ill", [False] * len(case["terms"]))) + " |}")
 
     def coq_obs(self, obs):
         cm = {"lt": "Some CLt", "nlt": "Some CNlt", "raise": "Some CRaise"}
